@@ -63,6 +63,13 @@ class C15(core.Check):
         for st in (b"\xef\xbb\xbfdata: bom\n\n", b"data: nobom\n\nid: 3\ndata: x\r\n\r\n", b"\xef\xbb", b"\xef\xbb\xbf", b"da", b"\xef\xbb\xbf\xef\xbb\xbfdata: two\n\n"):
             out.append(("sses", st, ()))
             out.append(("sses", st, tuple(range(1, len(st)))))
+        # lines of exactly / around every size limit, each terminator kind, with another field of the same event after them
+        for n in hp.boundary_line_sizes():
+            for term in (b"\r\n", b"\n", b"\r"):
+                st = b"id: 4\n" + b"data: " + b"x" * (n - 6) + term + b"data: b" + term + b"event: e\n\n" + b"data: next\n\n"
+                out.append(("sse", st, ()))
+                out.append(("sse", st, (6 + n, 6 + n + 1)))
+            out.append(("sser", "close", b"data: " + b"y" * (n - 6) + b"\r\ndata: b\r\n\r\n", (), (100,)))
         out.append(("sse", b"data: a\r", ()))
         out.append(("sse", b"data: a\r\n", (7,)))       # F18: CR | LF
         out.append(("sse", b"retry: " + b"1" * 4400 + b"\ndata: z\n\n", (10,)))
@@ -245,10 +252,18 @@ class C15(core.Check):
         cut, whole = obs
         if cut != whole:
             bad.append("fragmented-differs-from-whole")
+        stream = case[1] if case[0] == "sse" else case[2]
+        # a line longer than MAX_LINE_SIZE is refused (LineTooLong, an HTTPException: the response ends errored)
+        toolong = any(len(l) > hp.max_line_size() for l in re.split(rb"\r\n|\n|\r", stream))
+        if case[0] == "sse" and toolong:
+            if cut[3] != "LineTooLong":
+                bad.append("too-long-line-accepted")
+            return bad
         if hp.has_escape(obs) or (case[0] == "sse" and cut[3] is not None):
             bad.append("exception-escaped")
             return bad
-        stream = case[1] if case[0] == "sse" else case[2]
+        if toolong:
+            return bad
         exp = hp.whatwg_events(stream)
         got = self._got(case, cut)
         if got is None:
